@@ -122,6 +122,35 @@ def dupsort_lookups(ctx, b):
                     {"kind": "trace", "trace": ex, "line": line})
 
 
+def shrinking_merges(ctx, b):
+    """merge functions whose result is shorter than what was accumulated, down to the empty value (cancelling tokens): every key looked up
+    and sought in every way, the iterator re-sought onto the key it just returned and back to an earlier one"""
+    rng = ctx.rng
+    allrecs = []
+    for t in range(10 if ctx.quick() else 150):
+        wd = ctx.sub("sm")
+        fam = M.cancelling(M.rand_family(rng, nsrc=rng.choice([2, 3, 4, 5]), nkeys=rng.choice([3, 5, 8]), tokbase=1), rng)
+        variant = ["readers", "user", "nested", "mixed"][t % 4]
+        L = M.setup_lines(wd, fam, variant, 1, t % 2)
+        keys = sorted(set(k for src in fam for k, _ in src))
+        L += ["it_iter 1 m:0", "it_drain 1", "it_destroy 1"]
+        for k in keys:
+            for bd in (("get", k, b""), ("prefix", k[:1], b""), ("range", k, keys[-1])):
+                L += [gen.open_line(1, "m:0", bd), "it_drain 1", "it_destroy 1"]
+            L += ["it_iter 1 m:0", "it_seek 1 %s" % shapes.hexs(k), "it_next 1", "it_seek 1 %s" % shapes.hexs(k), "it_next 1 2",
+                  "it_seek 1 %s" % shapes.hexs(keys[0]), "it_drain 1", "it_destroy 1"]
+        L += M.teardown_lines(fam, variant)
+        recs, rc, err = M.run_script(ctx, b, wd, L, "sm")
+        ctx.add("shrinking_merge_families", 1)
+        if rc != 0:
+            core.report(ctx, "driver ended abnormally (rc=%s): %s" % (rc, err[-1500:]), {"kind": "script", "script": L[:200], "stderr": err[-3000:]})
+            continue
+        allrecs += recs
+    for ex, line in core.validate_batch(ctx, allrecs, "sm"):
+        core.report(ctx, "merger lookup under a shrinking merge function not explained by the merged table at trace line %d: %s" % (line, json.dumps(ex[line - 1])[:300]),
+                    {"kind": "trace", "trace": ex, "line": line})
+
+
 def wide_seeks(ctx, b):
     """seek histories on mergers over 7..12 sources (mostly in memory) whose first keys arrive in arbitrary order: every seek that
     re-seeks all sources rebuilds the heap over that many live sources"""
@@ -227,6 +256,7 @@ def run(ctx):
         graph_family(ctx, b, n, fam, merge, dupsort, variants[(n // 4) % 4] if n >= 4 else "readers")
     regressions(ctx)
     dupsort_lookups(ctx, b)
+    shrinking_merges(ctx, b)
     wide_seeks(ctx, b)
     heap_orders(ctx, b)
     random_histories(ctx, b)
